@@ -1,6 +1,6 @@
 \* exhaustive (thorough tier): up to 3 tracks, up to 2 packets
 CONSTANTS
-  Impl = "intended"
+  Impl = "current"
   Apis = {"New", "NewWith", "Writer", "WriterSeek"}
   MaxTracks = 3
   MaxPackets = 2
